@@ -157,13 +157,75 @@ def slicewise(fn, m):
     return np.array([[np.asarray(fn(m[d, p, ...])) for p in range(P)] for d in range(D)])
 
 
+def _eq(a, b, **kw):
+    """exact equality; non-finite entries must sit at the same places (NaN == NaN here)"""
+    a, b = np.asarray(a), np.asarray(b)
+    if a.shape != b.shape:
+        return False
+    if a.dtype.kind in 'fc' or b.dtype.kind in 'fc':
+        return bool(np.array_equal(a, b, equal_nan=True))
+    return bool(np.array_equal(a, b))
+
+
+def _firstbad(a, b):
+    a, b = np.asarray(a), np.asarray(b)
+    ne = a != b
+    if a.dtype.kind in 'fc' and b.dtype.kind in 'fc':
+        ne = ne & ~(np.isnan(a) & np.isnan(b))
+    return np.argwhere(ne)[0]
+
+
+NONFINITE = [np.inf, -np.inf, np.nan]
+
+
+def with_nonfinite(strategy, also_value=True):
+    """a third of the cases: inf / -inf / nan at up to four drawn positions of the operand buffer (all coefficients, also the
+    elements a view skips) and of an assigned array value - pure data movement must carry them like NumPy does"""
+    def f(t):
+        case, picks, flag = t
+        if flag != 0 or (case.get('params') or {}).get('uplo') == 'F':
+            return case
+        case = dict(case)
+        x = np.array(case['x'], copy=True)
+        if x.dtype.kind not in 'fc' or x.size == 0:
+            return case
+        for pos, k in picks:
+            x.reshape(-1)[pos % x.size] = NONFINITE[k]
+        if case.get('op') == 'neg' and np.iscomplexobj(x) and KF.is_open('KF-neg-complex-nonfinite'):
+            # -x is evaluated as -1 * x: for complex data with an infinite part the other part becomes NaN (open finding)
+            return dict(case, steered='KF-neg-complex-nonfinite')
+        if case.get('form') in ('zeros', 'zeros-positional', 'zeros_like') and KF.is_open('KF-zeros-nonfinite-dtype'):
+            # algopy.zeros(shape, dtype=x) multiplies the zeros with x.data.flatten()[0]: NaN when that entry is not finite
+            first = _apply_src(x, case.get('src')).reshape(-1)[:1]
+            if first.size and not np.isfinite(first[0]):
+                v = _apply_src(x, case.get('src'))
+                v[(0,) * v.ndim] = 1.0
+                case['steered'] = 'KF-zeros-nonfinite-dtype'
+        case['x'] = x
+        case['nonfinite'] = True
+        def inject(holder):
+            if not (holder and isinstance(holder.get('v'), np.ndarray) and holder['v'].dtype.kind == 'f' and holder['v'].size):
+                return holder
+            v = np.array(holder['v'], copy=True)
+            pos, k = picks[0]
+            v.reshape(-1)[pos % v.size] = NONFINITE[(k + 1) % 3]
+            return dict(holder, v=v)
+        if also_value and case.get('value'):
+            case['value'] = inject(case['value'])
+        if also_value and case.get('write'):
+            case['write'] = dict(case['write'], value=inject(case['write'].get('value')))
+        return case
+    picks = st.lists(st.tuples(st.integers(0, 10 ** 6), st.integers(0, 2)), min_size=1, max_size=4)
+    return st.tuples(strategy, picks, st.integers(0, 2)).map(f)
+
+
 def same(got, ref, what):
     got = np.asarray(got)
     ref = np.asarray(ref)
     if got.shape != ref.shape:
         raise Violation('%s: result data shape %s, slice-wise NumPy gives %s' % (what, got.shape, ref.shape))
-    if not np.array_equal(got, ref):
-        bad = tuple(int(i) for i in np.argwhere(got != ref)[0])
+    if not _eq(got, ref):
+        bad = tuple(int(i) for i in _firstbad(got, ref))
         raise Violation('%s: coefficient at (d,p,...)=%s is %r, slice-wise NumPy gives %r'
                         % (what, bad, got[bad].item(), ref[bad].item()))
 
@@ -199,12 +261,26 @@ def write_through(y, m, viewfn, buf, mbuf, w, what):
         for p in range(P):
             mv = viewfn(m[d, p, ...])
             mv[idx2] = per(d, p)
-    if not np.array_equal(buf, mbuf):
-        bad = tuple(int(i) for i in np.argwhere(buf != mbuf)[0])
+    if not _eq(buf, mbuf):
+        bad = tuple(int(i) for i in _firstbad(buf, mbuf))
         raise Violation('%s then result[%r] = <%s>: parent buffer at %s is %r, NumPy model has %r'
                         % (what, idx2, w['value']['kind'], bad, buf[bad].item(), mbuf[bad].item()))
-    if isinstance(raw, np.ndarray) and not np.array_equal(raw, raw0):
+    if isinstance(raw, np.ndarray) and not _eq(raw, raw0):
         raise Violation('%s: the assigned value was modified' % what)
+
+
+def fresh_checks(stats, y, r0, buf, mbuf, what):
+    """where NumPy returns a NEW array (or scalar) the result must not share memory with the operand, and an in-place update
+    of the result must leave the operand byte-identical (mirror image of view_checks)"""
+    if isinstance(r0, np.ndarray) and np.shares_memory(r0, mbuf):
+        return
+    stats.event('fresh:checked')
+    if np.shares_memory(y.data, buf):
+        raise Violation('%s: NumPy returns a new array, but the result shares memory with its operand' % what)
+    if y.data.size and y.data.flags.writeable:
+        y.data[...] = 77
+        if not _eq(buf, mbuf):
+            raise Violation('%s: an in-place update of the result changed the operand' % what)
 
 
 def view_checks(case, stats, y, x, m, viewfn, buf, mbuf, what):
@@ -422,7 +498,7 @@ def prop_getitem(case, stats):
     viewfn = lambda a: a[idx]
     same(y.data, slicewise(viewfn, m), what)
     view_checks(case, stats, y, x, m, viewfn, buf, mbuf, what)
-    if not np.array_equal(buf, mbuf):
+    if not _eq(buf, mbuf):
         raise Violation('%s modified its operand' % what)
 
 
@@ -459,6 +535,10 @@ def _common_classes(case):
         c.append('complex')
     if case.get('steered'):
         c.append('steered:' + case['steered'])
+    if case.get('nonfinite'):
+        c.append('nonfinite-entries')
+    if 1 in _apply_src(x, s).shape[2:]:
+        c.append('has-size-1-axis')
     return c
 
 
@@ -491,11 +571,11 @@ def prop_setitem(case, stats):
     for d in range(D):
         for p in range(P):
             m[d, p, ...][idx] = per(d, p)
-    if not np.array_equal(buf, mbuf):
-        bad = tuple(int(i) for i in np.argwhere(buf != mbuf)[0])
+    if not _eq(buf, mbuf):
+        bad = tuple(int(i) for i in _firstbad(buf, mbuf))
         raise Violation('%s: buffer at %s is %r, slice-wise NumPy assignment gives %r'
                         % (what, bad, buf[bad].item(), mbuf[bad].item()))
-    if isinstance(raw, np.ndarray) and not np.array_equal(raw, raw0):
+    if isinstance(raw, np.ndarray) and not _eq(raw, raw0):
         raise Violation('%s: the assigned value was modified' % what)
     if x.data.shape != m.shape:
         raise Violation('%s changed the shape of x' % what)
@@ -653,7 +733,8 @@ def prop_op(case, stats):
         raise Violation('%s: imaginary part lost' % what)
     if op in VIEW_OPS:
         view_checks(case, stats, y, x, m, reffn, buf, mbuf, what)
-    if not np.array_equal(buf, mbuf):
+    fresh_checks(stats, y, reffn(m[0, 0, ...]), buf, mbuf, what)
+    if not _eq(buf, mbuf):
         raise Violation('%s modified its operand' % what)
 
 
@@ -879,6 +960,8 @@ CONSTRUCT = {
 
 
 def prop_construct(case, stats):
+    if case.get('steered'):
+        stats.exclude(case['steered'])
     x, buf, m, mbuf = build(case)
     D, P = m.shape[:2]
     form, shp = case['form'], case['shape']
@@ -893,7 +976,7 @@ def prop_construct(case, stats):
     same(y.data, ref, what)
     if np.shares_memory(y.data, buf):
         raise Violation('%s: the new polynomial shares memory with the dtype argument' % what)
-    if not np.array_equal(buf, mbuf):
+    if not _eq(buf, mbuf):
         raise Violation('%s modified its argument' % what)
 
 
@@ -961,7 +1044,7 @@ def prop_reject(case, stats):
             y = call(x, q)
     except NotImplementedError:
         stats.event('rejected-as-declared')
-        if not np.array_equal(buf, mbuf):
+        if not _eq(buf, mbuf):
             raise Violation('%s raised NotImplementedError but modified its operand' % what)
         return
     except Exception as e:  # the declared rejection is NotImplementedError, nothing else
@@ -1189,27 +1272,28 @@ def buckets(tier):
         B.append(packed_bucket(name, strat, prop, {'quick': q, 'thorough': t}, nt, cl, weight=weight,
                                shards={'quick': 1, 'thorough': shards}))
 
-    add('getitem:tuple', lambda: getitem_cases('tuple'), prop_getitem, 1000, 4000, nt_getitem, cls_getitem, 2.0, 4)
-    add('getitem:bare', lambda: getitem_cases('bare'), prop_getitem, 600, 3000, nt_getitem, cls_getitem, 2.0, 2)
+    nf = lambda f: (lambda: with_nonfinite(f()))
+    add('getitem:tuple', nf(lambda: getitem_cases('tuple')), prop_getitem, 1000, 4000, nt_getitem, cls_getitem, 2.0, 4)
+    add('getitem:bare', nf(lambda: getitem_cases('bare')), prop_getitem, 600, 3000, nt_getitem, cls_getitem, 2.0, 2)
     for vk in ('utpm', 'utpm-bcast', 'ndarray', 'ndarray-bcast', 'scalar'):
-        add('setitem:' + vk, (lambda vk=vk: setitem_cases(vk)), prop_setitem, 600, 3000, nt_setitem, cls_setitem, 2.0, 3)
-    add('reshape', reshape_cases, prop_op, 800, 4000, nt_op, cls_op, 2.0, 3)
-    add('transpose', transpose_cases, prop_op, 480, 3000, nt_op, cls_op, 2.0, 2)
+        add('setitem:' + vk, nf(lambda vk=vk: setitem_cases(vk)), prop_setitem, 600, 3000, nt_setitem, cls_setitem, 2.0, 3)
+    add('reshape', nf(reshape_cases), prop_op, 800, 4000, nt_op, cls_op, 2.0, 3)
+    add('transpose', nf(transpose_cases), prop_op, 480, 3000, nt_op, cls_op, 2.0, 2)
     add('sum', sum_cases, prop_op, 600, 3000, nt_op, cls_op)
-    add('tile', tile_cases, prop_op, 480, 3000, nt_op, cls_op, 1.5)
-    add('diag', diag_cases, prop_op, 480, 3000, nt_op, cls_op)
-    add('triu', lambda: tri_cases('triu'), prop_op, 320, 2000, nt_op, cls_op)
-    add('tril', lambda: tri_cases('tril'), prop_op, 320, 2000, nt_op, cls_op)
+    add('tile', nf(tile_cases), prop_op, 480, 3000, nt_op, cls_op, 1.5)
+    add('diag', nf(diag_cases), prop_op, 480, 3000, nt_op, cls_op)
+    add('triu', nf(lambda: tri_cases('triu')), prop_op, 320, 2000, nt_op, cls_op)
+    add('tril', nf(lambda: tri_cases('tril')), prop_op, 320, 2000, nt_op, cls_op)
     add('trace', trace_cases, prop_op, 240, 2000, nt_op, cls_op)
-    add('symvec', symvec_cases, prop_op, 320, 2000, nt_op, cls_op, 2.0)
-    add('vecsym', vecsym_cases, prop_op, 240, 1500, nt_op, cls_op, 2.0)
+    add('symvec', nf(symvec_cases), prop_op, 320, 2000, nt_op, cls_op, 2.0)
+    add('vecsym', nf(vecsym_cases), prop_op, 240, 1500, nt_op, cls_op, 2.0)
     for op in ('neg', 'conj', 'real', 'imag'):
-        add(op, (lambda op=op: unary_cases(op)), prop_op, 240, 2000, nt_op, cls_op)
+        add(op, nf(lambda op=op: unary_cases(op)), prop_op, 240, 2000, nt_op, cls_op)
     add('fft', lambda: fft_cases('fft'), prop_op, 400, 3000, nt_op, cls_op)
     add('ifft', lambda: fft_cases('ifft'), prop_op, 400, 3000, nt_op, cls_op)
-    add('zeros', lambda: construct_cases('zeros'), prop_construct, 240, 2000, nt_construct, cls_construct)
-    add('ones', lambda: construct_cases('ones'), prop_construct, 240, 2000, nt_construct, cls_construct)
-    add('zeros_ones_like', lambda: construct_cases('like'), prop_construct, 240, 2000, nt_construct, cls_construct)
+    add('zeros', nf(lambda: construct_cases('zeros')), prop_construct, 240, 2000, nt_construct, cls_construct)
+    add('ones', nf(lambda: construct_cases('ones')), prop_construct, 240, 2000, nt_construct, cls_construct)
+    add('zeros_ones_like', nf(lambda: construct_cases('like')), prop_construct, 240, 2000, nt_construct, cls_construct)
     add('reject', reject_cases, prop_reject, 400, 2000, nt_op, cls_reject)
     add('bytes', bytes_cases, prop_bytes, 1200, 20000, nt_bytes, cls_bytes, 2.0, 4)
     if tier == 'thorough':
